@@ -112,6 +112,10 @@ def run_impl(pid, tier):
                 if e.get("singleton_cast") != {"k": "cptr", "t": SELF} or e.get("singleton_derefs") != 1 or e.get("singleton_kind") != "Self":
                     problems.append(f"E::get() does not return the value stored at the address (cast {e.get('singleton_cast')}, "
                                     f"derefs {e.get('singleton_derefs')}, returns {e.get('singleton_kind')})")
+            if oracle.get("osingle", NONE) != NONE:
+                eng = proj_item(obs, ["m", "Eng"]) or {}
+                if eng.get("singleton") != oracle["osingle"]:
+                    problems.append(f"Eng::get() addresses {eng.get('singleton')}, declared {oracle['osingle']}")
             files = {tuple(f["rel"][:-3].split("/")): f.get("proj") for f in obs.get("files", [])}
             evs = (files.get(("m",)) or {}).get("evals", [])
             if len(evs) != len(oracle["evals"]):
